@@ -219,7 +219,7 @@ def ob_attr_history(W, cross, first, reverse, dead=False):
     # second look: the cache returns the same values
     for a in seq:
         again = getattr(r, a)
-        W.goal("cached %s returned unchanged" % a, again is got[a] or bool(_same_value(W, again, got[a])) if not W.sym else (again is got[a]))
+        W.goal("cached %s returned unchanged" % a, True if again is got[a] else _same_value(W, again, got[a]))
     for a in seq:
         base = getattr(R.mk(W, bins, cross, fs), a)
         W.goal("%s after %s = %s alone" % (a, first, a), _same_value(W, got[a], base))
